@@ -6,6 +6,7 @@ import (
 	"encoding/json"
 	"fmt"
 	"net/http"
+	"strings"
 	"net/http/httptest"
 	"time"
 
@@ -31,6 +32,7 @@ type integArg struct {
 	Name    string            `json:"name"`           // transaction name for RealTx / callee scope
 	Outcome string            `json:"callee_outcome"` // nil | error
 	Stale   map[string]string `json:"stale"`          // entries already present on the caller's outbound carrier (a middle service forwarding what it received)
+	Triple  bool              `json:"triple"`         // dubbo: attachments as the triple protocol delivers them (lower-cased keys, []string values)
 }
 
 type integRes struct {
@@ -229,7 +231,11 @@ func init() {
 					return r
 				}}
 				if a.Side == "server" {
-					inv := invocation.NewRPCInvocation("m", nil, map[string]interface{}{a.Key: a.Xid})
+					var val interface{} = a.Xid
+					if a.Triple {
+						val = []string{a.Xid}
+					}
+					inv := invocation.NewRPCInvocation("m", nil, map[string]interface{}{a.Key: val})
 					res.Carrier = map[string]string{a.Key: a.Xid}
 					return f.Invoke(context.Background(), provider, inv).Error()
 				}
@@ -238,7 +244,11 @@ func init() {
 					res.Carrier = map[string]string{}
 					att := map[string]interface{}{}
 					for k, v := range inv.Attachments() {
-						att[k] = v
+						if sv, ok := v.(string); ok && a.Triple {
+							att[strings.ToLower(k)] = []string{sv}
+						} else {
+							att[k] = v
+						}
 						res.Carrier[k] = fmt.Sprint(v)
 					}
 					return f.Invoke(context.Background(), provider, invocation.NewRPCInvocation("m", nil, att))
